@@ -111,8 +111,41 @@ def rule_std_precedence(ctx):
         ctx.fail("from_json_string: merge of the basic standard types not found")
 
 
+def rule_row_select(ctx):
+    """the generic DataFrame decoder is applied to every table of the file, net.group included, whose index repeats (one row per
+    element type of a group): a row selector made of index labels addresses all rows sharing a label"""
+    R = "ROW-SELECT"
+    ctx.rule(R, "in FromSerializableRegistry.DataFrame (decoder of every table, including net.group with its repeated index) "
+                "rows are selected by boolean mask or position, never by the labels X.index[...] of the masked rows")
+    fi = None
+    for f in ctx.repo.module(IO).functions.values():
+        if f.qualname.endswith("FromSerializableRegistry.DataFrame"):
+            fi = f
+    if fi is None:
+        ctx.fail("FromSerializableRegistry.DataFrame vanished")
+    n = 0
+    defs = {}
+    for node in ast.walk(fi.node):
+        if isinstance(node, ast.Assign) and len(node.targets) == 1 and isinstance(node.targets[0], ast.Name):
+            defs.setdefault(node.targets[0].id, []).append(node.value)
+    for node in ast.walk(fi.node):
+        if isinstance(node, ast.Subscript) and isinstance(node.value, ast.Attribute) and node.value.attr == "loc":
+            sel = node.slice.elts[0] if isinstance(node.slice, ast.Tuple) and node.slice.elts else node.slice
+            exprs = [sel] + [v for nm in {x.id for x in ast.walk(sel) if isinstance(x, ast.Name)} for v in defs.get(nm, [])]
+            by_label = any(isinstance(x, ast.Subscript) and isinstance(x.value, ast.Attribute) and x.value.attr == "index"
+                           for e in exprs for x in ast.walk(e))
+            n += 1
+            ctx.ob(R, f"{IO}::FromSerializableRegistry.DataFrame::loc:{norm(sel, 50)}", not by_label,
+                   "row selector is a mask" if not by_label else
+                   f"`{norm(node, 70)}` selects rows by the index labels of the masked rows: in a table with a repeated index "
+                   "(net.group) every row sharing a label is hit", fi.loc(node))
+    if n < 1:
+        ctx.fail("FromSerializableRegistry.DataFrame: the None-restoring .loc store was not found")
+
+
 def run(ctx):
     rule_std_precedence(ctx)
+    rule_row_select(ctx)
     ctx.assume("decides agreement of the writer and reader tables (metadata keys, signatures, coding sets), not value equality")
     m = ctx.repo.module(IO)
     reg = registry(ctx)
@@ -258,6 +291,8 @@ def variants(repo):
     fio = "pandapower/file_io.py"
     V = Variant
     return [
+        V("None restored by index label", io, replace_once("df.loc[pd.isnull(df[col]), col] = None", "df.loc[df.index[pd.isnull(df[col])], col] = None"), "ROW-SELECT"),
+        V("twin: mask in a local", io, replace_once("            df.loc[pd.isnull(df[col]), col] = None", "            isnull = pd.isnull(df[col])\n            df.loc[isnull, col] = None"), None),
         V("library types override saved types", fio, replace_once("net.std_types[key] = dict(std_types, **net.std_types[key])", "net.std_types[key] = dict(net.std_types[key], **std_types)"), "STD-PRECEDENCE"),
         V("new metadata key not consumed", io, in_function("json_dataframe", replace_once("    d['is_multiindex'] = isinstance(obj.index, pd.MultiIndex)\n", "    d['is_multiindex'] = isinstance(obj.index, pd.MultiIndex)\n    d['n_rows'] = len(obj)\n")), "json_dataframe::n_rows"),
         V("decoder stops popping column_names", io, replace_once("        column_names = self.d.pop('column_names', None)\n", "        column_names = None\n"), "json_dataframe::column_names"),
